@@ -75,14 +75,15 @@ def strIncrFloat (s : State) (k : Bytes) (d : Dyadic) : SRes :=
      | .invalid => er .valueType s
      | .unknown => skip s
      | .val x =>
-       match formatFloatDec (x + d) with
+       match formatFloatDec (f64add x d) with
        | none => skip s
-       | some txt => ok (.score (.fin (x + d))) (put s k ⟨.str txt, et⟩))
+       | some txt => ok (.score (.fin (f64add x d))) (put s k ⟨.str txt, et⟩))
   | some _ => er .keyType s
   | none =>
-    (match formatFloatDec d with
+    -- a missing key counts as zero
+    (match formatFloatDec (f64add .zero d) with
      | none => skip s
-     | some txt => ok (.score (.fin d)) (put s k ⟨.str txt, none⟩))
+     | some txt => ok (.score (.fin (f64add .zero d))) (put s k ⟨.str txt, none⟩))
 
 def strSetMany (s : State) (items : List (Bytes × Bytes)) : SRes :=
   if items.any (fun p => match get s p.1 with
@@ -348,14 +349,15 @@ def hashIncrFloat (s : State) (k f : Bytes) (d : Dyadic) : SRes :=
      | .invalid => er .valueType s
      | .unknown => skip s
      | .val x =>
-       match formatFloatDec (x + d) with
+       match formatFloatDec (f64add x d) with
        | none => skip s
-       | some txt => ok (.score (.fin (x + d))) (put s k ⟨.hash (aput h f txt), et⟩))
+       | some txt => ok (.score (.fin (f64add x d))) (put s k ⟨.hash (aput h f txt), et⟩))
   | some _ => er .keyType s
   | none =>
-    (match formatFloatDec d with
+    -- a missing key (like a missing field) counts as zero
+    (match formatFloatDec (f64add .zero d) with
      | none => skip s
-     | some txt => ok (.score (.fin d)) (put s k ⟨.hash [(f, txt)], none⟩))
+     | some txt => ok (.score (.fin (f64add .zero d))) (put s k ⟨.hash [(f, txt)], none⟩))
 
 /-! ### sorted sets (C05) -/
 
